@@ -5,6 +5,7 @@ import (
 	"runtime/debug"
 	"strings"
 
+	"github.com/DemoHn/Zn/pkg/common"
 	"github.com/DemoHn/Zn/pkg/exec"
 	r "github.com/DemoHn/Zn/pkg/runtime"
 	libFile "github.com/DemoHn/Zn/stdlib/file"
@@ -26,8 +27,21 @@ func (e ExecResult) String() string {
 	return fmt.Sprintf("result=%q err=%q panic=%q nil=%v display=%q", e.Result, e.Err, e.Panic, e.NilElem, strings.Join(e.Display, "\n"))
 }
 
+// httpLib registers the real request / response classes of pkg/common the way stdlib/http does
+// (that package itself does not build on Linux at the pinned commit).
+var httpLibOnce *r.Library
+
+func httpLib() *r.Library {
+	if httpLibOnce == nil {
+		httpLibOnce = r.NewLibrary("@HTTP")
+		httpLibOnce.RegisterClass("HTTP请求", common.CLASS_HttpRequest)
+		httpLibOnce.RegisterClass("HTTP响应", common.CLASS_HttpResponse)
+	}
+	return httpLibOnce
+}
+
 func stdLibs(extra ...*r.Library) []*r.Library {
-	return append([]*r.Library{libJson.Export(), libFile.Export()}, extra...)
+	return append([]*r.Library{libJson.Export(), libFile.Export(), httpLib()}, extra...)
 }
 
 func newInterp(extra ...*r.Library) *exec.Interpreter {
